@@ -109,6 +109,9 @@ def _watch_delivery(ctx):
 
 
 def run(ctx):
+    ctx.rule("R09.l", "bind model: the dependency extraction of param.bind, interpreted abstractly (generator expressions lazily, as Python does) on bind(f, N1, N2, P0, k1=N3, k2=P1) with nested references carrying positional and keyword dependencies: every dependency of every nested reference and every directly bound Parameter reaches depends(), each under its own key", floor=1)
+    ctx.rule("R09.m", "dependency model: rx._compute_params, interpreted abstractly on a node whose operation has a positional and a keyword argument, lists the parameters of the previous nodes, of the operation's function and of both kinds of argument (what the invalidation watchers are installed on)", floor=1)
+    ctx.rule("R09.n", "the raw cache of an expression (`_current`, `_current_`: the value before a pending attribute access is applied) is read only by methods of rx itself; code outside the class -- the reference transform that lets an expression be used as an argument, bind, the .rx namespace -- goes through .rx.value / _resolve()", floor=1)
     ctx.rule("R09.a", "class rx defines the forward and the reflected special method of every binary operator of the Python data model", floor=28)
     ctx.rule("R09.b", "every operator./math. function referenced by a Python-3 special method of rx exists in that stdlib module", floor=40)
     ctx.rule("R09.c", "each reflected method applies the same function as its forward form and passes reverse=True; forward forms do not", floor=26)
@@ -331,6 +334,24 @@ def run(ctx):
                 ctx.ok("R09.k", m_, m_.node, "derives a new expression and stores nothing on self")
     ctx.require(n_k >= 5, "fewer than 5 expression-deriving methods found in rx (%d)" % n_k)
 
+    # ---------------------------------------------------------------- R09.n
+    n_out = 0
+    for g in ctx.repo.all_funcs("param.reactive"):
+        inside = g.cls is not None and g.cls.name == "rx" or (g.parent is not None and g.parent.cls is not None and g.parent.cls.name == "rx")
+        if inside:
+            continue
+        n_out += 1
+        raw = [a for a in ast.walk(g.node) if isinstance(a, ast.Attribute) and a.attr in ("_current", "_current_") and isinstance(a.ctx, ast.Load)]
+        if raw:
+            ctx.fail("R09.n", g, raw[0], "`%s` reads the raw cache of an expression from outside class rx: a pending attribute access (x.attr used as an operand or argument) is not applied, so the "
+                                         "consumer receives the parent object instead of the attribute" % norm(raw[0]), key="%s::raw-cache-read" % g.qualname,
+                     input="box = rx(obj); (x + box.w).rx.value -> TypeError / wrong value")
+    ctx.ok("R09.n", RX, None, "%d functions of param.reactive outside class rx: none reads _current / _current_" % n_out)
+
+    from checks import bind_model
+    bind_model.report(ctx, "R09.l")
+    from checks.rx_model import dependency_model
+    dependency_model(ctx, "R09.m")
     from checks import where_model
     where_model.report(ctx, "R09.j")
     from checks import rx_model
